@@ -446,6 +446,46 @@ pub fn det_group(rng: &mut Rng, max_objects: usize, group: usize) -> Vec<String>
             Err(e) => fails[i].push(format!("panic while interleaving two gradual calculators: {}", panic_msg(e))),
         }
     }
+    // another call history to the same positions: jumps with nth(k) instead of stepping with next()
+    for (i, j) in jobs.iter().enumerate() {
+        if j.map.hit_objects.len() > 30 || reference[i].is_none() {
+            continue;
+        }
+        let mode = mode_of(j.target);
+        let d = reused[i].clone();
+        let res = catch_unwind(AssertUnwindSafe(|| {
+            let mut g = GradualDifficulty::new_with_mode(d.clone(), &j.map, mode).ok()?;
+            let mut stepped = Vec::new();
+            while let Some(a) = g.next() {
+                stepped.push(a.json());
+                if stepped.len() > 100_000 {
+                    return None;
+                }
+            }
+            let mut rng = Rng::fork(0x6a75_6d70, i as u64 + stepped.len() as u64);
+            let mut g = GradualDifficulty::new_with_mode(d.clone(), &j.map, mode).ok()?;
+            let mut pos = 0usize; // values consumed so far
+            let mut bad = None;
+            while pos < stepped.len() {
+                let k = rng.below(4) as usize;
+                let Some(a) = g.nth(k) else { break };
+                pos += k + 1;
+                if pos > stepped.len() || a.json() != stepped[pos - 1] {
+                    bad = Some((pos, k));
+                    break;
+                }
+            }
+            Some(bad)
+        }));
+        evals[i] += 1;
+        match res {
+            Ok(Some(Some((pos, k)))) => fails[i].push(format!(
+                "gradual difficulty value #{pos} differs when it is reached by nth({k}) instead of stepping with next()"
+            )),
+            Ok(_) => {}
+            Err(e) => fails[i].push(format!("panic while jumping through a gradual calculator: {}", panic_msg(e))),
+        }
+    }
     jobs.iter()
         .enumerate()
         .map(|(i, j)| {
